@@ -217,6 +217,21 @@ func c19Silently(f func()) {
 
 var c19Seq int
 
+// c19Done is passed to a runner after the last command of a case (it restores what the runner changed).
+const c19Done = "\x00done"
+
+// c19Zones lists the TZ settings the command is run under: unset, UTC, and the zones furthest from UTC
+// that the system's zone database has (without a database only the first two).
+func c19Zones() []string {
+	zones := []string{"", "UTC"}
+	for _, z := range []string{"Pacific/Kiritimati", "Etc/GMT+12", "Asia/Kolkata"} {
+		if _, err := time.LoadLocation(z); err == nil {
+			zones = append(zones, z, z)
+		}
+	}
+	return zones
+}
+
 func c19Case(t *rapid.T, base string, maxCmds int, mkRunner func(root, tdir string) c19Runner) {
 	c19Seq++
 	root := filepath.Join(base, strconv.Itoa(c19Seq))
@@ -232,6 +247,7 @@ func c19Case(t *rapid.T, base string, maxCmds int, mkRunner func(root, tdir stri
 		}
 	}
 	run := mkRunner(root, tdir)
+	defer run(c19Done)
 	n := rapid.IntRange(1, maxCmds).Draw(t, "ncmds")
 	var cmds []string
 	for i := 0; i < n; i++ {
@@ -263,7 +279,16 @@ func TestVerifC19InProcess(t *testing.T) {
 	rapid.Check(t, func(t *rapid.T) {
 		c19Case(t, base, 6, func(root, tdir string) c19Runner {
 			telemetry.Default = telemetry.NewDir(tdir)
+			// the process's local zone: in one of the two far zones the local date differs from the UTC date
+			savedLocal := time.Local
+			if h := rapid.SampledFrom([]int{0, 0, 14, -12, 5}).Draw(t, "localZoneHours"); h != 0 {
+				time.Local = time.FixedZone("verif", h*3600)
+			}
 			return func(cmd string) string {
+				if cmd == c19Done {
+					time.Local = savedLocal
+					return ""
+				}
 				c19Silently(func() {
 					switch cmd {
 					case "on":
@@ -295,9 +320,17 @@ func TestVerifC19Binary(t *testing.T) {
 	}
 	rapid.Check(t, func(t *rapid.T) {
 		c19Case(t, base, 4, func(root, tdir string) c19Runner {
+			// the zone of the command's process: in one of the two far zones the local date differs from the UTC date
+			tz := rapid.SampledFrom(c19Zones()).Draw(t, "TZ")
 			return func(cmd string) string {
+				if cmd == c19Done {
+					return ""
+				}
 				c := exec.Command(exe, cmd)
 				c.Env = append(os.Environ(), "GOTELEMETRY_RUN_AS_MAIN=1", "XDG_CONFIG_HOME="+root, "HOME="+root, "VERIF_STATS=")
+				if tz != "" {
+					c.Env = append(c.Env, "TZ="+tz)
+				}
 				var stdout, stderr bytes.Buffer
 				c.Stdout, c.Stderr = &stdout, &stderr
 				if err := c.Run(); err != nil {
